@@ -714,7 +714,8 @@ int main(int argc, char** argv)
         if(c.want()) sem("S11 block-deletion <" + L.tag + ">", T.substr(0, b) + T.substr(e), exd, "element <" + L.tag + "> removed" + lno);
         // duplication
         Expect exu = EX_ANY;
-        if(L.tag == "Mesh" || L.tag == "Vertices" || L.tag == "Topology" || L.tag == "Mapping" || L.tag == "MeshPart" || L.tag == "Chart") exu = EX_REJECT;
+        if(L.tag == "Mesh" || L.tag == "Mapping" || L.tag == "MeshPart" || L.tag == "Chart") exu = EX_REJECT;
+        if((L.tag == "Vertices" || L.tag == "Topology") && (par == "Mesh" || par == "MeshPart")) exu = EX_REJECT;
         if(c.want()) sem("S11 block-duplication <" + L.tag + ">", T.substr(0, e) + T.substr(b, e - b) + T.substr(e), exu, "element <" + L.tag + "> present twice" + lno);
         // moved to the end of the root (order independence is not required; crash freedom is)
         if(par == "FeatMeshFile" && e < sm.lines[sm.lines.size() - 1].beg)
